@@ -185,6 +185,7 @@ def run(tier, seed, replay=None):
             orig, can, twice = pair[2]
             mreq.append('canon\t' + show(orig)); midx.append((i, j, 'canon'))
             mreq.append('ren_by\t%s\t%s' % (show(orig), show(can))); midx.append((i, j, 'ren'))
+            mreq.append('idem\t' + show(orig)); midx.append((i, j, 'idem'))
     mresp = cm.run_model(mreq, exe_model) if mreq else []
     per = {}
     for key, m in zip(midx, mresp):
@@ -214,6 +215,20 @@ def run(tier, seed, replay=None):
             elif per[(i, j, 'canon')] != s_can:
                 violations.append(dict(kind='correspondence', request=reqs[i], block=j, impl=s_can[:2500], model=per[(i, j, 'canon')][:2500],
                                        oracle='corr:hook/canon: implementation and Coq model (Param.canon) disagree'))
+            # (iv) the hypotheses of theorem C13_idempotent_checked, evaluated by the extracted model:
+            # on a block that spells no kept name like one of its own canonical names, the indexer
+            # must number the canonical block as it numbered the original; then idempotence of
+            # the model is a theorem (and the model's canonical block is the implementation's)
+            idem = dict(kv.split('=') for kv in per.get((i, j, 'idem'), '').split() if '=' in kv)
+            if idem.get('fresh') == 'true':
+                if idem.get('stable') == 'true':
+                    stats['idem_theorem_instances'] = stats.get('idem_theorem_instances', 0) + 1
+                elif not fail:
+                    violations.append(dict(kind='property' if idem.get('idem') == 'false' else 'correspondence',
+                                           request=reqs[i], block=j, impl=s_can[:2500], model=per.get((i, j, 'idem')),
+                                           oracle='theorem C13_idempotent_checked no longer applies: the indexer numbers the canonical block differently from the original (model evaluation: %s)' % per.get((i, j, 'idem'))))
+            elif idem:
+                stats['idem_reserved_spelling'] = stats.get('idem_reserved_spelling', 0) + 1
             cans.append(can)
             if any(a != b for a, b in zip(names, onames)):
                 nontrivial.add(reqs[i] + '#%d' % j)
